@@ -84,6 +84,7 @@ func globalHistory(c *Ctx, r *Report, ri *reachInfo, rule string) (nvars int) {
 }
 
 func runC08(c *Ctx, r *Report) {
+	closureState(c, r, "C08-R5-closure-state")
 	roots, missing := c.rootFuncs(append(append([]string{}, decodeRoots...), encodeRoots...))
 	for _, m := range missing {
 		r.fail("C08-roots", m, "", "entry point not found")
@@ -412,6 +413,7 @@ func isSortOf(info *types.Info, s ast.Stmt, expr string) bool {
 // ---------------------------------------------------------------------------------
 
 func runC09(c *Ctx, r *Report) {
+	closureState(c, r, "C09-R4-closure-state")
 	roots, missing := c.rootFuncs(append(append([]string{}, decodeRoots...), encodeRoots...))
 	for _, m := range missing {
 		r.fail("C09-roots", m, "", "entry point not found")
@@ -608,4 +610,87 @@ func singletonFact(info *types.Info, fd *ast.FuncDecl, rg *ast.RangeStmt) string
 		}
 	}
 	return ""
+}
+
+// closureState: a closure that outlives the call that made it (it is returned) and captures a
+// mutable object allocated by that call (map, slice, channel, heap cell) carries state from one
+// use of the closure to the next: an option value built once and handed to several Decode calls
+// would share it, sequentially (history) and concurrently (race). Captured parameters of the
+// constructor (a caller-supplied logger) are the caller's own objects and are not flagged.
+func closureState(c *Ctx, r *Report, rule string) {
+	n := 0
+	for _, fn := range c.moduleFuncs() {
+		if fnPkgPath(fn) != modPath || !inLib(fn) {
+			continue
+		}
+		for _, b := range fn.Blocks {
+			for _, ins := range b.Instrs {
+				mc, ok := ins.(*ssa.MakeClosure)
+				if !ok {
+					continue
+				}
+				escapes := false
+				var follow func(v ssa.Value, depth int)
+				follow = func(v ssa.Value, depth int) {
+					if depth > 4 || v.Referrers() == nil {
+						return
+					}
+					for _, ref := range *v.Referrers() {
+						switch u := ref.(type) {
+						case *ssa.Return:
+							escapes = true
+						case *ssa.Store:
+							if u.Val == v {
+								escapes = true
+							}
+						case *ssa.MakeInterface:
+							escapes = true
+						case *ssa.ChangeType:
+							follow(u, depth+1)
+						case *ssa.Phi:
+							follow(u, depth+1)
+						}
+					}
+				}
+				follow(mc, 0)
+				if !escapes {
+					continue
+				}
+				n++
+				bad := ""
+				for i, bnd := range mc.Bindings {
+					name := mc.Fn.(*ssa.Function).FreeVars[i].Name()
+					switch v := bnd.(type) {
+					case *ssa.MakeMap, *ssa.MakeSlice, *ssa.MakeChan:
+						bad = name + " (" + v.Type().String() + ", allocated by " + fn.Name() + ")"
+					case *ssa.Alloc:
+						// a heap cell: shared when it holds something other than a copy of a parameter
+						isParamSpill := false
+						for _, ref := range *v.Referrers() {
+							if st, ok := ref.(*ssa.Store); ok && st.Addr == ssa.Value(v) {
+								if _, isP := st.Val.(*ssa.Parameter); isP {
+									isParamSpill = true
+								}
+							}
+						}
+						writtenInClosure := false
+						cl := mc.Fn.(*ssa.Function)
+						for _, cb := range cl.Blocks {
+							for _, ci := range cb.Instrs {
+								if st, ok := ci.(*ssa.Store); ok && st.Addr == ssa.Value(cl.FreeVars[i]) {
+									writtenInClosure = true
+								}
+							}
+						}
+						if !isParamSpill || writtenInClosure {
+							bad = name + " (cell allocated by " + fn.Name() + ", written through the closure: " + fmt.Sprint(writtenInClosure) + ")"
+						}
+					}
+				}
+				key := fn.Name() + "/closure-" + mc.Fn.Name()
+				r.check(bad == "", rule, key, c.pos(mc.Pos()), "the returned closure captures only the constructor's parameters", "the closure returned by "+fn.Name()+" captures "+bad+": every use of the same closure value shares that object, so a result depends on earlier calls and concurrent calls race on it")
+			}
+		}
+	}
+	r.set("escaping_closures", n)
 }
